@@ -105,11 +105,11 @@ def replay_l142(cfg, m):
     return calls[0] > 40 * n + 80, 'python calls=%d for %d bytes %s' % (calls[0], n, data.hex())
 
 
-R.add('L14.2', l142, lambda tier: [dict(n=n) for n in ((0, 1, 2, 3, 4) if tier == 'quick' else range(0, 7))],
+R.add('L14.2', l142, lambda tier: [dict(n=n) for n in ((0, 1, 2, 3, 4) if tier == 'quick' else range(0, 8))],
       replay=replay_l142, desc='full decode of n symbolic bytes with the real registry',
       expect=['decode work is linear in the input size', 'result is composed of supported and registered types only',
               'malformed input raises an ordinary exception'],
-      bounds='n <= 4 (thorough 6) fully symbolic bytes', step_limit=20000)
+      bounds='n <= 4 (thorough 7) fully symbolic bytes', step_limit=20000)
 
 
 # ------------------------------------------------------------------ L14.1 progress lemma (arbitrary stream)
